@@ -12,7 +12,7 @@ import z3
 
 from . import core
 from .core import (F, I, Q, SV, Unsupported, box, decide, fold, is_special, is_sym, ite, lift_float, raw, sort_of,
-                   to_z3, wrap, r_add, r_sub, r_mul, r_div, r_neg, r_cmp, r_abs, r_floor, r_ceil, r_sqrt,
+                   to_z3, wrap, r_add, r_sub, r_mul, r_div, r_neg, r_cmp, r_abs, r_floor, r_ceil, r_rint, r_sqrt,
                    r_pow, r_and, r_or, r_xor, r_not, r_floordiv, r_mod, r_trunc_int, r_to_float, r_to_bool,
                    concretize_int)
 
@@ -163,6 +163,11 @@ class ndarray:  # noqa: F811
         self.ix = ix
         self.shape = tuple(shape)
         assert len(ix) == _prod(self.shape), (len(ix), self.shape)
+        if dt is None and ix:
+            # NumPy fixes the dtype at creation: a numeric array never changes kind through later assignments
+            k = _join_kinds(sort_of(buf[i]) for i in ix)
+            if k in ("b", "i", "f"):
+                dt = k
         self._dt = dt
 
     # -- construction helpers
@@ -778,7 +783,9 @@ def linspace(start, stop, num=50, endpoint=True):
     if isinstance(a, ndarray) or isinstance(b, ndarray):
         raise Unsupported("linspace with array bounds")
     a, b = r_to_float(a), r_to_float(b)
-    if num <= 0:
+    if num < 0:
+        raise ValueError(f"Number of samples, {num}, must be non-negative.")
+    if num == 0:
         return ndarray.new([], (0,), "f")
     div = (num - 1) if endpoint else num
     if div == 0:
@@ -1161,6 +1168,7 @@ multiply = _ufunc2(r_mul)
 true_divide = _ufunc2(r_div, "f")
 power = _ufunc2(r_pow)
 floor = _ufunc1(r_floor, "f")
+rint = _ufunc1(r_rint, "f")
 ceil = _ufunc1(r_ceil, "f")
 sqrt = _ufunc1(r_sqrt, "f")
 negative = _ufunc1(r_neg)
@@ -1205,6 +1213,30 @@ def divide(a, b, out=None, where=True, **kw):
             out.buf[i] = c
         return out if out.shape != () else out
     return _ret(cells, x.shape, "f")
+
+
+def result_type(*xs):
+    ks = []
+    for x in xs:
+        if isinstance(x, dtype):
+            ks.append(x.kind if hasattr(x, "kind") else _dt(x))
+        elif isinstance(x, (type, str)):
+            ks.append(_dt(x))
+        else:
+            ks.append(asarray(x).kind)
+    return dtype(_join_kinds(ks))
+
+
+def copyto(dst, src, casting="same_kind", where=True):
+    if not isinstance(dst, ndarray):
+        raise TypeError("copyto() argument 1 must be numpy.ndarray")
+    sa_ = broadcast_to(asarray(src), dst.shape).data
+    w = broadcast_to(asarray(where), dst.shape).data
+    for i, c, m in zip(dst.ix, sa_, w):
+        if is_sym(m):
+            m = decide(m)
+        if m:
+            dst.buf[i] = c if is_special(c) else _cast(c, dst.kind)
 
 
 def where(cond, x=None, y=None):
